@@ -1101,6 +1101,18 @@ func (broker *Broker) startTrack(wg *sync.WaitGroup) {
 		log.Debug("Track loop ...")
 		// Block by default
 		wait = nil
+		if in == nil {
+			// No more payloads will arrive, so a file that is still incomplete
+			// (its remaining parts were dropped from a payload because it
+			// changed or left the cache) never will be.  It stays not-done in
+			// the cache and is picked up again; waiting for it would keep a
+			// graceful stop from ever returning.
+			for key, pFile := range progress {
+				if pFile.sent < pFile.size {
+					delete(progress, key)
+				}
+			}
+		}
 		if len(progress) == 0 {
 			if in == nil {
 				// We can safely return now that our Q is empty
